@@ -326,6 +326,17 @@ func buildCorpus(caseFiles []string, repo string, tier string, rng *rand.Rand) (
 	junk["riffwebp+pngchunks"] = append([]byte("RIFF\x00\x10\x00\x00WEBP"), pngBody[8:]...)
 	junk["jpeg-then-png"] = append(append([]byte{}, jpegBody...), pngBody...)
 	junk["png-damaged-ihdr-type"] = func() []byte { d := append([]byte{}, pngBody...); d[13] = 'X'; return d }()
+	// fill bytes ahead of the start-of-image marker itself (T.81 B.1.1.2 lets any number precede any marker,
+	// and the JPEG loader takes them): the input does not begin FF D8, so a detector that looks at the
+	// first bytes instead of asking the loaders sees no JPEG (round 11)
+	{
+		jpegICC, _ := gen.BuildJPEG([]gen.JSeg{gen.SOI(), gen.ICCSeg(1, 1, gen.SimpleProfile(600, "after fill", true, 9)), gen.SOF(0xC2, 8, 17, 19, gen.StdComps(3, 0x11)), gen.SOS(3, gen.EntropyBytes(40, 3)), gen.EOI()})
+		for _, n := range []int{1, 2, 3, 10, 11, 12, 13, 4094, 4095, 4097} {
+			fill := bytes.Repeat([]byte{0xFF}, n)
+			junk[fmt.Sprintf("fill%d+jpeg", n)] = append(append([]byte{}, fill...), jpegBody...)
+			junk[fmt.Sprintf("fill%d+jpeg-icc", n)] = append(append([]byte{}, fill...), jpegICC...)
+		}
+	}
 	// a degenerate structure after (or before) the valid one that carries the metadata: the
 	// parser has extracted something when it trips
 	{
